@@ -590,6 +590,16 @@ class Sim:
             miss = [n for n in self.jobs if n not in rows]
             if miss and not self.rows_unknown:
                 self.viol("C05", "complete-without-results", f"completion flag set but jobs {miss} have no result")
+        if self.ff_now and not self.scen.get("cancel") and not self.scen.get("cycle") and self.scen.get("mode") != "local" and self.epoch == 0 and self.cancel_started is None:
+            # the summary written before the flag must hold one result per job: a result that still sits uncollected in a
+            # node file while the submission is declared complete is reported to the user as missing
+            try:
+                data = json.load(open(os.path.join(self.out, "results.json")))
+                names = sorted(r["name"] for r in data.get("results", []))
+                if data.get("missing_jobs") or names != sorted(self.jobs):
+                    self.viol("C05", "complete-with-missing-jobs", f"completion flag set in a fault-free run while the results summary reports missing jobs {data.get('missing_jobs')} ({len(names)} results for {len(self.jobs)} jobs)")
+            except (OSError, ValueError):
+                pass
         if self.hooks_cfg().get("teardown"):
             t = [h for h in self.hooks_seen if h["kind"] == "teardown" and h["epoch"] == self.epoch]
             if not t:
